@@ -16,7 +16,8 @@ K = 48
 def cfg(tier):
     if tier == 'quick':
         return {'La': 2, 'Lb': 2, 'roles': 'RBW', 'da': 2, 'db': 2, 'struct': True, 'extra': [(1, 'RBX', 2), (3, 'RB', 1)]}
-    return {'La': 2, 'Lb': 2, 'roles': 'RBWX', 'da': 3, 'db': 2, 'struct': True, 'extra': [(1, 'RBXW', 3), (3, 'RBW', 2)]}
+    return {'La': 2, 'Lb': 2, 'roles': 'RBWX', 'da': 3, 'db': 2, 'struct': False,
+            'extra': [(1, 'RBXW', 3), (3, 'RBW', 2), (2, 'RBW', 2, True), (4, 'RB', 2)]}
 
 
 def tasks(tier, seed):
@@ -32,8 +33,9 @@ def pools(tier, seed):
     text_b = explore.letters(seed + 7, c['Lb'])
     gen = explore.std_gen(tb, seed)
     B = explore.bfs([[['plain', text_b]], [['rainbow', text_b]], [['plain', '']]], gen, c['db']).items
-    for (L, rn, d) in c['extra']:
-        te = {'L': L, 'layout': 'plain', 'roles': rn, 'depth': d, 'struct': False, 'part': 0, 'parts': 1}
+    for ex in c['extra']:
+        (L, rn, d) = ex[:3]
+        te = {'L': L, 'layout': 'plain', 'roles': rn, 'depth': d, 'struct': len(ex) > 3 and ex[3], 'part': 0, 'parts': 1}
         A = A + explore.std_pool(te, seed + 3).items
     A = A + [([['plain', '']], build([['plain', '']]))]
     return A, B
